@@ -44,6 +44,9 @@ func _evalStmts(
 
 		if _defer, ok := val.(*object.DeferObj); ok {
 			deferObjs = append(deferObjs, *_defer)
+			// NOTE: deferObj must not be the value of stmts,
+			// otherwise the caller registers (and evaluates) it again
+			val = object.BuiltInNil
 		}
 
 		if val.Type() == object.YieldType {
